@@ -18,3 +18,136 @@ pub fn resample(input: &[u64], interp: usize, deci: usize) -> Vec<u64> {
     }
     out
 }
+
+/// CRC-16/X.25 (reflected polynomial 0x8408, init 0xffff, final xor 0xffff),
+/// computed bit by bit from the polynomial: independent of any table.
+pub fn crc16_x25(data: &[u8]) -> u16 {
+    let mut crc: u16 = 0xffff;
+    for b in data {
+        crc ^= *b as u16;
+        for _ in 0..8 {
+            crc = if crc & 1 != 0 { (crc >> 1) ^ 0x8408 } else { crc >> 1 };
+        }
+    }
+    !crc
+}
+
+/// Bytes to bits, least significant bit first.
+pub fn bytes_to_bits_lsb(data: &[u8]) -> Vec<u8> {
+    data.iter().flat_map(|b| (0..8).map(move |i| (b >> i) & 1)).collect()
+}
+
+/// HDLC bit stuffing: a 0 after every five consecutive 1s.
+pub fn stuff(bits: &[u8]) -> Vec<u8> {
+    let mut out = Vec::new();
+    let mut ones = 0;
+    for b in bits {
+        out.push(*b);
+        if *b == 1 {
+            ones += 1;
+            if ones == 5 {
+                out.push(0);
+                ones = 0;
+            }
+        } else {
+            ones = 0;
+        }
+    }
+    out
+}
+
+pub const FLAG: [u8; 8] = [0, 1, 1, 1, 1, 1, 1, 0];
+
+/// Body of an HDLC frame (between flags): payload + CRC (little endian),
+/// LSB-first, stuffed.
+pub fn hdlc_body(payload: &[u8], with_crc: bool) -> Vec<u8> {
+    let mut bytes = payload.to_vec();
+    if with_crc {
+        bytes.extend(crc16_x25(payload).to_le_bytes());
+    }
+    stuff(&bytes_to_bits_lsb(&bytes))
+}
+
+/// A complete transmission: `pre` flags, then each frame followed by
+/// `between` flags (at least one: shared flag when 1).
+pub fn hdlc_stream(frames: &[Vec<u8>], with_crc: bool, pre: usize, between: usize) -> Vec<u8> {
+    let mut out = Vec::new();
+    for _ in 0..pre.max(1) {
+        out.extend(FLAG);
+    }
+    for f in frames {
+        out.extend(hdlc_body(f, with_crc));
+        for _ in 0..between.max(1) {
+            out.extend(FLAG);
+        }
+    }
+    out
+}
+
+/// NRZI-S decode: output 1 if the level stayed, 0 if it toggled. The level
+/// before the first bit is 0.
+pub fn nrzi_decode(bits: &[u8]) -> Vec<u8> {
+    let mut last = 0u8;
+    bits.iter()
+        .map(|b| {
+            let o = 1 ^ b ^ last;
+            last = *b;
+            o
+        })
+        .collect()
+}
+
+/// NRZI-S encode (inverse of the above): a 0 toggles the level, a 1 keeps it.
+pub fn nrzi_encode(bits: &[u8]) -> Vec<u8> {
+    let mut level = 0u8;
+    bits.iter()
+        .map(|b| {
+            if *b == 0 {
+                level ^= 1;
+            }
+            level
+        })
+        .collect()
+}
+
+/// Multiplicative (self-synchronising) descrambler: out = in ^ parity(reg & mask);
+/// then the input bit is shifted in at bit `len` while the register shifts
+/// right.
+pub fn descramble(bits: &[u8], mask: u64, seed: u64, len: u8) -> Vec<u8> {
+    let mut reg = seed;
+    bits.iter()
+        .map(|b| {
+            let o = ((reg & mask).count_ones() as u8 & 1) ^ b;
+            reg = (reg >> 1) | ((*b as u64) << len);
+            o
+        })
+        .collect()
+}
+
+/// Scrambler matching `descramble`: feeds back its own *output*.
+pub fn scramble(bits: &[u8], mask: u64, seed: u64, len: u8) -> Vec<u8> {
+    let mut reg = seed;
+    bits.iter()
+        .map(|b| {
+            let o = ((reg & mask).count_ones() as u8 & 1) ^ b;
+            reg = (reg >> 1) | ((o as u64) << len);
+            o
+        })
+        .collect()
+}
+
+/// Sliding-window correlator: output k is 1 iff the last `code.len()` input
+/// bits (with zeros before the start) differ from the code in at most
+/// `allowed` places.
+pub fn correlate(bits: &[u8], code: &[u8], allowed: usize) -> Vec<(u8, usize)> {
+    let n = code.len();
+    let mut win = vec![0u8; n];
+    bits.iter()
+        .map(|b| {
+            win.push(*b);
+            win.remove(0);
+            let d = win.iter().zip(code).filter(|(a, b)| a != b).count();
+            ((d <= allowed) as u8, d)
+        })
+        .collect()
+}
